@@ -510,6 +510,12 @@ func isDeadRecord(pointer interface{}) bool {
 // PrefixScan returns records at the given prefix and limitNum
 // limitNum: limit the number of the scanned records return.
 func (t *BPTree) PrefixScan(prefix []byte, offsetNum int, limitNum int) (records Records, off int, err error) {
+	return t.prefixScan(prefix, offsetNum, limitNum, false)
+}
+
+// prefixScan is PrefixScan; with keepDead it also returns deleted and expired records. The sparse
+// index of the active segment needs them: its tombstones shadow older records of sealed segments.
+func (t *BPTree) prefixScan(prefix []byte, offsetNum int, limitNum int, keepDead bool) (records Records, off int, err error) {
 	var (
 		n              *Node
 		scanFlag       bool
@@ -541,7 +547,7 @@ func (t *BPTree) PrefixScan(prefix []byte, offsetNum int, limitNum int) (records
 				break
 			}
 
-			if isDeadRecord(n.pointers[i]) {
+			if !keepDead && isDeadRecord(n.pointers[i]) {
 				continue
 			}
 
@@ -573,6 +579,11 @@ func (t *BPTree) PrefixScan(prefix []byte, offsetNum int, limitNum int) (records
 // PrefixSearchScan returns records at the given prefix, match regular expression and limitNum
 // limitNum: limit the number of the scanned records return.
 func (t *BPTree) PrefixSearchScan(prefix []byte, reg string, offsetNum int, limitNum int) (records Records, off int, err error) {
+	return t.prefixSearchScan(prefix, reg, offsetNum, limitNum, false)
+}
+
+// prefixSearchScan is PrefixSearchScan; keepDead as in prefixScan.
+func (t *BPTree) prefixSearchScan(prefix []byte, reg string, offsetNum int, limitNum int, keepDead bool) (records Records, off int, err error) {
 	var (
 		n              *Node
 		scanFlag       bool
@@ -609,7 +620,7 @@ func (t *BPTree) PrefixSearchScan(prefix []byte, reg string, offsetNum int, limi
 				break
 			}
 
-			if isDeadRecord(n.pointers[i]) {
+			if !keepDead && isDeadRecord(n.pointers[i]) {
 				continue
 			}
 
